@@ -2,7 +2,7 @@
 use crate::c01::real_json;
 use crate::corpus::Prepared;
 use crate::model::{run_model, MOut};
-use crate::real::{run_vm, Real};
+use crate::real::{run_vm_tagged as run_vm, Real};
 use vcore::verdict::Known;
 use vcore::{json, Stats};
 
